@@ -36,6 +36,8 @@ class Sc (α : Type) extends Add α, Mul α, Zero α, One α where
   shw : α → String
   /-- exact `|a|` when it is rational (`z_abs` on the Pythagorean inputs the generator uses) -/
   absQ : α → Except String Rat
+  /-- complex conjugate (identity on the real scalars): what `sp_?gemv` applies to the entries of A for `trans = 'C'` -/
+  cj : α → α
 
 instance {α} [s : Sc α] : DecidableEq α := s.deq
 
@@ -65,6 +67,7 @@ instance : Sc PV where
   absQ a := match a.v with
     | some q => .ok (if q < 0 then -q else q)
     | none => .error "abs of nan"
+  cj a := a
 
 instance : Sc (Cx PV) where
   deq := inferInstance
@@ -75,6 +78,7 @@ instance : Sc (Cx PV) where
         | some s => .ok s
         | none => .error "irrational modulus"
     | _, _ => .error "abs of nan"
+  cj a := Slu.Blas.Cx.conj a
 
 section Generic
 variable {α : Type} [Sc α]
@@ -112,6 +116,8 @@ def opGemv (id : String) : RdM String := do
   let alpha : α ← Sc.read; let beta : α ← Sc.read
   let incx ← int; let incy ← int
   let x : Array α ← cntArr; let y : Array α ← cntArr
+  -- `trans = 'C'`: the routine multiplies with the conjugated entries (the generic model's transpose branch on conj(A))
+  let A := if lsame trans 'C' then { A with nzval := A.nzval.map Sc.cj } else A
   match spGemv trans alpha A x incx beta y incy with
   | .xerbla k => return s!"res {id} gemv xerbla {k}"
   | .notImplemented => return s!"res {id} gemv abort"
@@ -124,6 +130,7 @@ def opGemm (id : String) : RdM String := do
   let alpha : α ← Sc.read; let beta : α ← Sc.read
   let ldb ← nat; let b : Array α ← cntArr
   let ldc ← nat; let c : Array α ← cntArr
+  let A := if lsame trans 'C' then { A with nzval := A.nzval.map Sc.cj } else A
   let r := spGemm trans n alpha A b ldb beta c ldc
   if r.aborted then return s!"res {id} gemm abort"
   return s!"res {id} gemm calls {r.xerblaCalls} info {r.info} {showArr r.c}"
